@@ -161,7 +161,7 @@ def observe(ty, obj, o, probes):
     cmp("count", o["n"], lambda: R["count"](obj))
     cmp("seq", norm_xs(ty, o["xs"]), lambda: items(ty, obj))
     if o["n"] == 0:
-        cmp("seq-of-empty", None, lambda: R["seq"](obj))
+        cmp("seq-of-empty", None, lambda: R["seq"](obj), lambda q: None if q is None else "a non-nil seq")
     try:
         mc = metacode(R["meta"](obj))
     except Exception as e:  # noqa
@@ -372,7 +372,8 @@ def _new_object(ty, w, obj, o, probes, bad, src=None):
         if what == "meta":
             # name the outcome relative to the metadata of the source version
             sm = w.snaps[src - 1][2] if src and w.snaps[src - 1] and len(w.snaps[src - 1]) == 4 else None
-            e = "nil" if e == [0] else "the given map" if len(e) == 1 else "the metadata of the source, or nil"
+            e = "nil" if e == [0] else ("the metadata of the source" if src and e == [sm] else "the given map") \
+                if len(e) == 1 else "the metadata of the source, or nil"
             g = "nil" if g == 0 else "the metadata of the source" if g == sm else "another map" if isinstance(g, int) else g
         bad(what, e, g, rtype=tname if wrong_type else None)
     # `=` and hash against every earlier version
@@ -569,7 +570,7 @@ def job_mc(name, expect_violation=None):
 
 
 def _cap(mism, cap):
-    """keep at most `cap` mismatches per signature"""
+    """keep at most `cap` mismatches per signature (and nothing that is not plain data: results cross processes)"""
     seen = {}
     out = []
     for m in mism:
@@ -577,7 +578,7 @@ def _cap(mism, cap):
         seen[s] = seen.get(s, 0) + 1
         if seen[s] <= cap:
             out.append(m)
-    return out
+    return json.loads(json.dumps(out, default=lambda o: "<%s>" % type(o).__name__))
 
 
 def _run_job(j):
@@ -637,7 +638,7 @@ def plan(tier):
     jobs.append(("mc", "Neg_vecpop", "Laws"))
     jobs.append(("mc", "Neg_merge", "Laws"))
     if tier == "quick":
-        tree = {"vec": (3, 1, None), "map": (3, 4, None), "set": (3, 1, None), "list": (4, 4, None), "queue": (4, 4, None)}
+        tree = {"vec": (3, 1, None), "map": (3, 6, None), "set": (3, 2, None), "list": (4, 6, None), "queue": (4, 6, None)}
         nsim, per = 3, 40
     else:
         # (depth, number of shards, shards that are run: None = all)
@@ -675,7 +676,7 @@ def run(chk):
     for r in sorted(results, key=lambda r: json.dumps([r.get("kind"), r.get("ty"), r.get("name"), r.get("shard"),
                                                         r.get("seed")])):
         if "error" in r:
-            chk.machinery("%s job failed: %s" % (r["kind"], r["error"][:800]))
+            chk.machinery("%s job failed: %s ... %s" % (r["kind"], r["error"][:200], r["error"][-900:]))
             continue
         chk.add_tlc("%s:%s" % (r["kind"], r.get("name") or "%s/%s" % (r["ty"], r.get("shard", r.get("seed")))),
                     _R2(r["tlc"]))
